@@ -1443,7 +1443,635 @@ def reserved_keyword_after_valid_calls_cases():
         yield {"dom": "directed", "name": "reserved_keyword_after_valid_calls", "kind": kind}
 
 
-SCENARIOS = {"member_added_between_invariants": member_added_between_invariants, "integrator_snapshot_without_postcondition": integrator_snapshot_without_postcondition, "exception_from_new": exception_from_new, "interrupt_while_message_is_built": interrupt_while_message_is_built, "concurrent_constructors_without_init": concurrent_constructors_without_init, "async_def_spelling": async_def_spelling, "class_keyword_arguments": class_keyword_arguments, "reserved_keyword_after_valid_calls": reserved_keyword_after_valid_calls, "call_while_constructor_runs": call_while_constructor_runs, "constructor_calls_back": constructor_calls_back, "contract_calls_same_method_of_fresh_object": contract_calls_same_method_of_fresh_object, "odd_exception_classes": odd_exception_classes, "sync_layer_over_coroutine": sync_layer_over_coroutine, "keyword_named_self": keyword_named_self, "decorating_another_function": decorating_another_function, "late_decoration_of_inheriting_override": late_decoration_of_inheriting_override, "used_before_override": used_before_override, "rewritten_file": rewritten_file, "shared_decorator": shared_decorator, "construct_inside_contract": construct_inside_contract,
+# --------------------------------------------------------------------------- round 9
+
+def falsy_and_truthy_values(case):
+    """a condition is judged by the truth value of what it returns - whatever the type: numeric zeros, empty containers,
+    None are violations; NaN, NotImplemented-free odd truthy values are not"""
+    import decimal
+    import fractions
+    falsy = [False, 0, 0.0, 0j, decimal.Decimal(0), fractions.Fraction(0), "", b"", [], (), {}, set(), None, range(0)]
+    truthy = [True, 1, -1, 0.5, float("nan"), decimal.Decimal(1), "0", [0], (None,), {0: 0}, Ellipsis, object(), range(1)]
+    role, is_async = case["role"], case["async"]
+    fails = []
+    for vals, want in ((falsy, "violation"), (truthy, "ok")):
+        for v in vals:
+            ran = []
+            if role == "invariant":
+                class K:
+                    def __init__(self):
+                        self.armed = False
+
+                    def m(self):
+                        ran.append("body")
+                        return 1
+                def inv_cond(self, _v=v):
+                    return _v if self.armed else True
+                K = icontract.invariant(inv_cond)(K)
+                o = K()
+                o.armed = True
+                thunk = o.m
+            else:
+                def pre_cond(x, _v=v):
+                    return _v
+
+                def post_cond(result, _v=v):
+                    return _v
+                deco = icontract.require(pre_cond) if role == "require" else icontract.ensure(post_cond)
+                if is_async:
+                    async def f(x):
+                        ran.append("body")
+                        return x
+                    g = deco(f)
+                    thunk = lambda: _drive(g(1))  # noqa: E731
+                else:
+                    def f(x):
+                        ran.append("body")
+                        return x
+                    g = deco(f)
+                    thunk = lambda: g(1)  # noqa: E731
+            try:
+                thunk()
+                got = "ok"
+            except icontract.ViolationError:
+                got = "violation"
+            except BaseException as e:  # noqa: B902
+                got = "raised %s" % type(e).__name__
+            if got != want:
+                fails.append("%s%s whose condition returns %r: %s, expected %s" % ("async " if is_async else "", role, v, got, want))
+            if role == "require" and want == "violation" and ran:
+                fails.append("%s whose condition returns %r: the body ran" % (role, v))
+    return {"fails": fails}
+
+
+def falsy_and_truthy_values_cases():
+    for role in ("require", "ensure", "invariant"):
+        for a in ((False, True) if role != "invariant" else (False,)):
+            yield {"dom": "directed", "name": "falsy_and_truthy_values", "role": role, "async": a}
+
+
+def special_results(case):
+    """postconditions gate EVERY normal return - also of None, NotImplemented, Ellipsis, falsy and odd values - and a
+    satisfied contract returns the very object"""
+    import decimal
+    results = [None, NotImplemented, Ellipsis, False, 0, "", [], {}, float("nan"), decimal.Decimal(0), object(), (NotImplemented,)]
+    fails = []
+    for r in results:
+        for truth in (True, False):
+            state = {"n": 0}
+
+            def post(result, x, _t=truth):
+                state["n"] += 1
+                return _t
+
+            if case["kind"] == "function":
+                @icontract.ensure(post)
+                def f(x, _r=r):
+                    return _r
+                call = lambda: f(1)  # noqa: E731
+            elif case["kind"] == "async":
+                @icontract.ensure(post)
+                async def af(x, _r=r):
+                    return _r
+                call = lambda: _drive(af(1))  # noqa: E731
+            elif case["kind"] == "dunder":
+                def post_d(result, _t=truth):
+                    state["n"] += 1
+                    return _t
+
+                class V:
+                    @icontract.ensure(post_d)
+                    def __lt__(self, other, _r=r):
+                        return _r
+                call = lambda: V().__lt__(3)  # noqa: E731
+            else:
+                class A(icontract.DBC):
+                    @icontract.ensure(post)
+                    def m(self, x):
+                        return 0
+
+                class B(A):
+                    def m(self, x, _r=r):
+                        return _r
+                call = lambda: B().m(1)  # noqa: E731
+            try:
+                got = call()
+                out = "returned-same" if got is r else "returned-other %r" % (got,)
+            except icontract.ViolationError:
+                out = "violation"
+            except BaseException as e:  # noqa: B902
+                out = "raised %s" % type(e).__name__
+            want = "returned-same" if truth else "violation"
+            if out != want or state["n"] != 1:
+                fails.append("%s returning %r with a %s postcondition: %s (postcondition evaluated %d times), expected %s"
+                             % (case["kind"], r, "satisfied" if truth else "violated", out, state["n"], want))
+    return {"fails": fails}
+
+
+def special_results_cases():
+    for kind in ("function", "async", "dunder", "inherited"):
+        yield {"dom": "directed", "name": "special_results", "kind": kind}
+
+
+def contracts_on_partial(case):
+    """a contract placed on a functools.partial object: conditions, captures and error factories observe exactly what the
+    body receives"""
+    import functools
+    seen = {}
+
+    def volume(width, height, depth=3):
+        seen["body"] = (width, height, depth)
+        return width * height * depth
+
+    MISSING = "not-passed"
+
+    def pre(width=MISSING, height=MISSING, depth=MISSING):
+        seen["pre"] = (width, height, depth)
+        return True
+
+    def cap(depth):            # (a capture must be given every parameter it declares: it names the one that is always visible)
+        seen["cap"] = depth
+        return depth
+
+    def post(result, OLD, width=MISSING, height=MISSING, depth=MISSING):
+        seen["post"] = (width, height, depth)
+        return OLD.d == depth
+
+    # (shape: the partial, the call, what the body receives, what a contract can see = the partial's own signature)
+    shapes = {
+        "nothing-bound": (functools.partial(volume), [(2, 5), {}], (2, 5, 3), (2, 5, 3)),
+        "positional-bound": (functools.partial(volume, 2, 5), [(11,), {}], (2, 5, 11), (MISSING, MISSING, 11)),
+        "one-positional-bound": (functools.partial(volume, 2), [(5,), {"depth": 7}], (2, 5, 7), (MISSING, 5, 7)),
+        "keyword-bound": (functools.partial(volume, depth=10), [(2, 5), {}], (2, 5, 10), (2, 5, 10)),
+        "keyword-bound-overridden": (functools.partial(volume, depth=10), [(2, 5), {"depth": 4}], (2, 5, 4), (2, 5, 4)),
+    }
+    p, (args, kwargs), want, visible = shapes[case["shape"]]
+    fails = []
+    try:
+        g = icontract.require(pre)(icontract.snapshot(cap, name="d")(icontract.ensure(post)(p)))
+        seen.clear()
+        r = g(*args, **kwargs)
+        if r != want[0] * want[1] * want[2]:
+            fails.append("result %r" % (r,))
+        if seen.get("body") != want:
+            fails.append("partial %s: the body received %s, the bare partial binds %s" % (case["shape"], seen.get("body"), want))
+        if seen.get("cap") != visible[2]:
+            fails.append("partial %s: the capture observed depth = %s, the body received %s" % (case["shape"], seen.get("cap"), want[2]))
+        for site in ("pre", "post"):
+            if seen.get(site) != visible:
+                fails.append("partial %s: the %s observed (width, height, depth) = %s, expected %s (the body received %s)"
+                             % (case["shape"], site, seen.get(site), visible, want))
+    except BaseException as e:  # noqa: B902
+        fails.append("partial %s: %s: %s" % (case["shape"], type(e).__name__, str(e)[:120]))
+    return {"fails": fails}
+
+
+def contracts_on_partial_cases():
+    for shape in ("nothing-bound", "positional-bound", "one-positional-bound", "keyword-bound", "keyword-bound-overridden"):
+        yield {"dom": "directed", "name": "contracts_on_partial", "shape": shape}
+
+
+def error_functions_sharing_code(case):
+    """error functions that are different objects with different signatures but share one code object (wrapped by the same
+    functools.wraps helper, a function and a bound method of the same def): each is called with exactly the values IT names"""
+    import functools
+    calls = []
+
+    def audited(fn):
+        @functools.wraps(fn)
+        def wrapper(*args, **kwargs):
+            calls.append((fn.__name__, sorted(kwargs), args))
+            return fn(*args, **kwargs)
+        return wrapper
+
+    class E1(Exception):
+        pass
+
+    class E2(Exception):
+        pass
+
+    class E3(Exception):
+        pass
+
+    @audited
+    def err_x(x):
+        return E1(x)
+
+    @audited
+    def err_xy(x, y):
+        return E2(x, y)
+
+    @audited
+    def err_res(result, y):
+        return E3(result, y)
+
+    order = case["order"]
+    decos = {"pre1": icontract.require(lambda x: x > 0, error=err_x), "pre2": icontract.require(lambda x, y: x < y, error=err_xy),
+             "post": icontract.ensure(lambda result: result < 100, error=err_res)}
+
+    def f(x, y):
+        return x * y
+
+    g = f
+    for k in order:
+        g = decos[k](g)
+    fails = []
+    for args, want_cls, want_kw, want_args in (((-1, 5), E1, ["x"], (-1,)), ((7, 5), E2, ["x", "y"], (7, 5)), ((20, 30), E3, ["result", "y"], (600, 30))):
+        del calls[:]
+        try:
+            g(*args)
+            got = "returned"
+        except (E1, E2, E3) as e:
+            got = type(e)
+            if e.args != want_args:
+                fails.append("f%s: the error carries %s, expected %s" % (args, e.args, want_args))
+        except BaseException as e:  # noqa: B902
+            got = "%s: %s" % (type(e).__name__, str(e)[:80])
+        if got is not want_cls:
+            fails.append("f%s (decorators applied in the order %s): %s, expected %s" % (args, order, got, want_cls.__name__))
+        elif len(calls) != 1 or calls[0][1] != want_kw:
+            fails.append("f%s: error function calls %s, expected one call with the keywords %s" % (args, calls, want_kw))
+    return {"fails": fails}
+
+
+def error_functions_sharing_code_cases():
+    import itertools
+    for order in itertools.permutations(["pre1", "pre2", "post"]):
+        yield {"dom": "directed", "name": "error_functions_sharing_code", "order": list(order)}
+
+
+def closed_from_another_context(case):
+    """an async method of a class with invariants is suspended in its body and then closed / thrown into from ANOTHER
+    contextvars context (an abandoned task finalised by the garbage collector, a trampoline): the exception surfaces unchanged
+    and the instance is checked again afterwards"""
+    import contextvars
+    exc = {"close": None, "BaseException": _Cancelled("c"), "Exception": RuntimeError("boom")}[case["exc"]]
+
+    class K:
+        def __init__(self):
+            self.ok = True
+
+        async def slow(self):
+            await _Pause()
+            return 1
+
+        def other(self):
+            return 2
+
+    def is_ok(self):
+        return self.ok
+
+    K = icontract.invariant(is_ok)(K)
+    o = K()
+    co = o.slow()
+    ctx1 = contextvars.copy_context()
+    ctx1.run(co.send, None)
+    ctx2 = contextvars.copy_context() if case["where"] == "other-context" else ctx1
+    fails = []
+    try:
+        if exc is None:
+            ctx2.run(co.close)
+            got = "closed"
+        else:
+            ctx2.run(co.throw, exc)
+            got = "returned"
+    except StopIteration:
+        got = "returned"
+    except BaseException as e:  # noqa: B902
+        got = "same" if e is exc else "other %s: %s" % (type(e).__name__, str(e)[:60])
+    want = "closed" if exc is None else "same"
+    if got != want:
+        fails.append("%s delivered from %s to an async method suspended in its body: %s, expected %s" % (case["exc"], case["where"], got, want))
+    o.ok = False
+    # (the context the call was STARTED in keeps the mark when the call is finalised elsewhere: it belongs to an abandoned
+    # task and is outside the claim - C11 assumption; every other context must check the object again)
+    for ctx in (ctx2, contextvars.copy_context()):
+        try:
+            ctx.run(o.other)
+            res = "returned"
+        except icontract.ViolationError:
+            res = "violation"
+        except BaseException as e:  # noqa: B902
+            res = "raised %s" % type(e).__name__
+        if res != "violation":
+            fails.append("after that, a call on the (now broken) object: %s, expected a violation" % res)
+    return {"fails": fails}
+
+
+def closed_from_another_context_cases():
+    for where in ("same-context", "other-context"):
+        for exc in ("close", "BaseException", "Exception"):
+            yield {"dom": "directed", "name": "closed_from_another_context", "where": where, "exc": exc}
+
+
+class _AppKeyError(KeyError):
+    pass
+
+
+def proxies_and_nested_constructors(case):
+    """transparency for (a) a weakref.proxy passed as `self`, (b) exceptions - KeyError and subclasses included - raised by
+    the body of a constructor that runs inside another constructor of the same object"""
+    import weakref
+
+    def build(with_contracts):
+        class Base:
+            def __init__(self, table, key):
+                self.v = table[key]            # may raise KeyError
+
+            def get(self, k=0):
+                return self.v + k
+
+            def __len__(self):
+                return 3
+
+            @property
+            def prop(self):
+                return self.v
+
+        class Sub(Base):
+            def __init__(self, table, key):
+                if key == "app":
+                    raise _AppKeyError("application error")
+                super().__init__(table, key)
+
+        class SubSub(Sub):
+            def __init__(self, table, key):
+                super().__init__(table, key)
+                self.w = 1
+
+        if with_contracts:
+            inv = lambda self: True  # noqa: E731
+            Base = icontract.invariant(inv)(Base)
+            Sub = icontract.invariant(inv)(Sub)
+            SubSub = icontract.invariant(inv)(SubSub)
+        return Base, Sub, SubSub
+
+    def observe(classes):
+        Base, Sub, SubSub = classes
+        out = []
+        for cls in (Base, Sub, SubSub):
+            for key in ("a", "missing", "app"):
+                try:
+                    out.append([cls.__name__, key, "ok", cls({"a": 1}, key).v])
+                except BaseException as e:  # noqa: B902
+                    out.append([cls.__name__, key, type(e).__name__, e.args])
+        o = SubSub({"a": 1}, "a")
+        pr = weakref.proxy(o)
+        for label, thunk in (("method", lambda: Base.get(pr, 2)), ("dunder", lambda: Base.__len__(pr)), ("property", lambda: Base.prop.fget(pr)),
+                             ("re-init", lambda: (Base.__init__(pr, {"a": 5}, "a"), o.v)[1])):
+            try:
+                out.append([label, "ok", thunk()])
+            except BaseException as e:  # noqa: B902
+                out.append([label, type(e).__name__, str(e)[:60]])
+        return out
+
+    a, b = observe(build(False)), observe(build(True))
+    fails = []
+    for x, y in zip(a, b):
+        if x != y:
+            fails.append("bare classes: %s; classes with satisfied invariants: %s" % (x, y))
+    return {"fails": fails}
+
+
+def proxies_and_nested_constructors_cases():
+    yield {"dom": "directed", "name": "proxies_and_nested_constructors"}
+
+
+# --------------------------------------------------------------------------- round 9 (more)
+
+def invariants_while_another_thread_reports(case):
+    """while one thread is busy building the message of ITS violation (an argument with a slow __repr__), another thread's
+    invariant-breaking call on an unrelated object is still refused"""
+    import threading
+    entered, release = threading.Event(), threading.Event()
+
+    class Doc:
+        def __repr__(self):
+            entered.set()
+            release.wait(5)
+            return "Doc()"
+
+    def never(doc):
+        return False
+
+    if case["site"] == "precondition":
+        @icontract.require(never)
+        def publish(doc):
+            return doc
+    else:
+        @icontract.ensure(lambda result, doc: never(doc))
+        def publish(doc):
+            return doc
+
+    class Account:
+        def __init__(self):
+            self.balance = 10
+
+        def withdraw(self, n):
+            self.balance -= n
+            return self.balance
+
+    def nonneg(self):
+        return self.balance >= 0
+
+    Account = icontract.invariant(nonneg)(Account)
+    res = {}
+
+    def reporter():
+        try:
+            publish(Doc())
+            res["reporter"] = "returned"
+        except icontract.ViolationError:
+            res["reporter"] = "violation"
+        except BaseException as e:  # noqa: B902
+            res["reporter"] = type(e).__name__
+
+    t = threading.Thread(target=reporter)
+    t.start()
+    fails = []
+    try:
+        if not entered.wait(5):
+            return {"fails": ["harness: the reporting thread did not reach the slow __repr__"]}
+        acc = Account()
+
+        def other():
+            try:
+                res["other"] = ["returned", acc.withdraw(100)]
+            except icontract.ViolationError:
+                res["other"] = ["violation"]
+            except BaseException as e:  # noqa: B902
+                res["other"] = [type(e).__name__]
+
+        t2 = threading.Thread(target=other)
+        t2.start()
+        t2.join(10)
+    finally:
+        release.set()
+        t.join(10)
+    if res.get("other") != ["violation"]:
+        fails.append("an invariant-breaking call made while another thread builds the message of its own %s violation: %s, expected a violation"
+                     % (case["site"], res.get("other")))
+    if res.get("reporter") != "violation":
+        fails.append("the reporting thread: %s" % res.get("reporter"))
+    return {"fails": fails}
+
+
+def invariants_while_another_thread_reports_cases():
+    for site in ("precondition", "postcondition"):
+        yield {"dom": "directed", "name": "invariants_while_another_thread_reports", "site": site}
+
+
+_SEPARATION_CHILD = """
+import sys, json
+import icontract
+
+def cap100(self): return self.x < 100
+def nonneg(self): return self.x >= 0
+def even(self): return self.x % 2 == 0
+
+@icontract.invariant(nonneg, enabled=True)
+class Base(icontract.DBC):
+    def __init__(self, x):
+        self.x = x
+    def get(self):
+        return self.x
+
+def verdict(cls, x):
+    try:
+        cls(x).get()
+        return "ok"
+    except icontract.ViolationError:
+        return "violation"
+    except BaseException as e:
+        return type(e).__name__
+
+out = {"debug": __debug__}
+out["before"] = [verdict(Base, 50), verdict(Base, 500), verdict(Base, -1), len(Base.__invariants__)]
+
+@icontract.invariant(cap100, enabled=True)
+class Small(Base):
+    pass
+
+out["after_small"] = [verdict(Base, 50), verdict(Base, 500), verdict(Base, -1), len(Base.__invariants__)]
+
+@icontract.invariant(even, enabled=True)
+class Even(Base):
+    pass
+
+out["after_even"] = [verdict(Base, 50), verdict(Base, 500), verdict(Base, 51), len(Base.__invariants__)]
+out["small"] = [verdict(Small, 50), verdict(Small, 500), verdict(Small, 51), len(Small.__invariants__)]
+out["even"] = [verdict(Even, 50), verdict(Even, 500), verdict(Even, 51), len(Even.__invariants__)]
+print(json.dumps(out))
+"""
+
+
+def separation_in_every_interpreter_mode(case):
+    """explicitly enabled invariants of sibling subclasses never reach the base or each other - in the normal and in the
+    optimised interpreter"""
+    import json
+    import os
+    import subprocess
+    import sys
+    import tempfile
+    flags = {"normal": [], "O": ["-O"], "OO": ["-OO"]}[case["mode"]]
+    d = tempfile.mkdtemp(prefix="verif_sep_")
+    try:
+        path = os.path.join(d, "sep_child.py")
+        with open(path, "w") as fh:
+            fh.write(_SEPARATION_CHILD)
+        env = dict(os.environ, PYTHONPATH=common.REPO)
+        p = subprocess.run([sys.executable] + flags + [path], stdout=subprocess.PIPE, stderr=subprocess.PIPE, env=env, timeout=120)
+        if p.returncode != 0:
+            return {"fails": ["the child interpreter (%s) failed: %s" % (case["mode"], p.stderr.decode(errors="replace")[-400:])]}
+        out = json.loads(p.stdout.decode().strip().splitlines()[-1])
+    finally:
+        import shutil
+        shutil.rmtree(d, ignore_errors=True)
+    fails = []
+    if out["debug"] != (case["mode"] == "normal"):
+        fails.append("harness: __debug__ is %s in mode %s" % (out["debug"], case["mode"]))
+    want = {"before": ["ok", "ok", "violation", 1], "after_small": ["ok", "ok", "violation", 1], "after_even": ["ok", "ok", "ok", 1],
+            "small": ["ok", "violation", "ok", 2], "even": ["ok", "ok", "violation", 2]}
+    for k, w in want.items():
+        if out.get(k) != w:
+            fails.append("mode %s: %s is %s, expected %s" % (case["mode"], k, out.get(k), w))
+    return {"fails": fails}
+
+
+def separation_in_every_interpreter_mode_cases():
+    for mode in ("normal", "O", "OO"):
+        yield {"dom": "directed", "name": "separation_in_every_interpreter_mode", "mode": mode}
+
+
+def members_from_invariantless_bases(case):
+    """a class that inherits its invariants from one base and public members from ANOTHER base that has no invariants
+    (a mix-in): the inherited invariants guard those members too"""
+    def nonneg(self):
+        return self.balance >= 0
+
+    class Account(icontract.DBC):
+        def __init__(self):
+            self.balance = 10
+
+        def deposit(self, n):
+            self.balance += n
+            return self.balance
+
+    Account = icontract.invariant(nonneg)(Account)
+    mixin_base = {"plain": object, "dbc": icontract.DBC}[case["mixin"]]
+
+    class Mixin(mixin_base):
+        def drain(self, n):
+            self.balance -= n
+            return self.balance
+
+        @property
+        def drained(self):
+            self.balance = -1
+            return True
+
+        def __len__(self):
+            self.balance = -2
+            return 1
+
+    if case["order"] == "account-first":
+        class Savings(Account, Mixin):
+            pass
+    else:
+        class Savings(Mixin, Account):
+            pass
+
+    if case["own_body"]:
+        class Leaf(Savings):
+            def extra(self):
+                return 1
+    else:
+        Leaf = Savings
+    fails = []
+    for label, op in (("method of the mix-in", lambda o: o.drain(100)), ("property of the mix-in", lambda o: o.drained),
+                      ("dunder of the mix-in", lambda o: len(o)), ("method of the invariant-carrying base", lambda o: o.deposit(-100))):
+        o = Leaf()
+        try:
+            op(o)
+            got = "returned"
+        except icontract.ViolationError:
+            got = "violation"
+        except BaseException as e:  # noqa: B902
+            got = "raised %s" % type(e).__name__
+        if got != "violation":
+            fails.append("%s breaks the inherited invariant (mix-in: %s, bases %s, own body: %s): %s, expected a violation"
+                         % (label, case["mixin"], case["order"], case["own_body"], got))
+    return {"fails": fails}
+
+
+def members_from_invariantless_bases_cases():
+    for mixin in ("plain", "dbc"):
+        for order in ("account-first", "mixin-first"):
+            for own_body in (False, True):
+                yield {"dom": "directed", "name": "members_from_invariantless_bases", "mixin": mixin, "order": order, "own_body": own_body}
+
+
+SCENARIOS = {"members_from_invariantless_bases": members_from_invariantless_bases, "invariants_while_another_thread_reports": invariants_while_another_thread_reports, "separation_in_every_interpreter_mode": separation_in_every_interpreter_mode, "falsy_and_truthy_values": falsy_and_truthy_values, "special_results": special_results, "contracts_on_partial": contracts_on_partial, "error_functions_sharing_code": error_functions_sharing_code, "closed_from_another_context": closed_from_another_context, "proxies_and_nested_constructors": proxies_and_nested_constructors, "member_added_between_invariants": member_added_between_invariants, "integrator_snapshot_without_postcondition": integrator_snapshot_without_postcondition, "exception_from_new": exception_from_new, "interrupt_while_message_is_built": interrupt_while_message_is_built, "concurrent_constructors_without_init": concurrent_constructors_without_init, "async_def_spelling": async_def_spelling, "class_keyword_arguments": class_keyword_arguments, "reserved_keyword_after_valid_calls": reserved_keyword_after_valid_calls, "call_while_constructor_runs": call_while_constructor_runs, "constructor_calls_back": constructor_calls_back, "contract_calls_same_method_of_fresh_object": contract_calls_same_method_of_fresh_object, "odd_exception_classes": odd_exception_classes, "sync_layer_over_coroutine": sync_layer_over_coroutine, "keyword_named_self": keyword_named_self, "decorating_another_function": decorating_another_function, "late_decoration_of_inheriting_override": late_decoration_of_inheriting_override, "used_before_override": used_before_override, "rewritten_file": rewritten_file, "shared_decorator": shared_decorator, "construct_inside_contract": construct_inside_contract,
              "cancelled_in_body": cancelled_in_body, "recreated_class": recreated_class}
 
 
